@@ -666,7 +666,10 @@ class Sym:
 
     def __abs__(self):
         if not self.plain:
-            raise Unsupported("abs of log-kind value")
+            # |p + log(n/d)|: decide the sign (fork), the value stays exact
+            if self.d is not None:
+                raise Unsupported("abs of log-kind dual number")
+            return self if bool(self >= 0) else -self
         t = self.p
         r = Sym(z3.If(t >= 0, t, -t), is_int=self.is_int)
         if self.d is not None:
